@@ -141,6 +141,38 @@ unsafe impl GlobalAlloc for FaultAlloc {
     }
 }
 
+// The mprotect seam: rbpf's `libc::mprotect` resolves to this definition (an executable's own
+// symbols come first); everything passes straight through to the system call, except that one armed
+// request for an executable mapping fails with EACCES - what a W^X policy (SELinux execmem,
+// systemd's MemoryDenyWriteExecute) answers to `PROT_EXEC | PROT_WRITE`.
+static ARM_MPROTECT_FAIL: AtomicU64 = AtomicU64::new(0);
+pub static MPROTECT_FAIL_FIRED: AtomicU64 = AtomicU64::new(0);
+pub static MPROTECT_EXEC_SEEN: AtomicU64 = AtomicU64::new(0);
+
+#[no_mangle]
+pub unsafe extern "C" fn mprotect(addr: *mut libc::c_void, len: libc::size_t, prot: libc::c_int) -> libc::c_int {
+    if prot & libc::PROT_EXEC != 0 {
+        MPROTECT_EXEC_SEEN.fetch_add(1, Ordering::Relaxed);
+        if ARM_MPROTECT_FAIL.swap(0, Ordering::Relaxed) == 1 {
+            MPROTECT_FAIL_FIRED.fetch_add(1, Ordering::Relaxed);
+            // Under such a policy no page of the process has ever been writable and executable: pages
+            // recycled from an earlier, successful compile must not stay executable by accident.
+            libc::syscall(libc::SYS_mprotect, addr, len, prot & !libc::PROT_EXEC);
+            *libc::__errno_location() = libc::EACCES;
+            return -1;
+        }
+    }
+    libc::syscall(libc::SYS_mprotect, addr, len, prot) as libc::c_int
+}
+
+pub fn arm_mprotect_fail() {
+    ARM_MPROTECT_FAIL.store(1, Ordering::Relaxed);
+}
+
+pub fn disarm_mprotect_fail() -> bool {
+    ARM_MPROTECT_FAIL.swap(0, Ordering::Relaxed) == 1
+}
+
 pub fn arm_page_alloc_fail() {
     ARM_PAGE_ALLOC_FAIL.store(1, Ordering::Relaxed);
 }
